@@ -462,8 +462,14 @@ class Gen:
         elif kind == 'block':
             m1, m2 = self.length(1), self.length(1)
             m1, m2 = min(m1, 3), min(m2, 2)
-            p['dofmap'] = [[self.integers(0, n - 1) for _ in range(m2)] for _ in range(m1)]
-            cs = shape[:k] + [m1, m2] + shape[k + 1:]
+            if len(shape) <= 2 and self.boolean(0.35):
+                # three-dimensional dofmap with unequal extents (flat-index strides differ per axis)
+                m3 = 2 if m2 != 2 else 3
+                p['dofmap'] = [[[self.integers(0, n - 1) for _ in range(m3)] for _ in range(m2)] for _ in range(m1)]
+                cs = shape[:k] + [m1, m2, m3] + shape[k + 1:]
+            else:
+                p['dofmap'] = [[self.integers(0, n - 1) for _ in range(m2)] for _ in range(m1)]
+                cs = shape[:k] + [m1, m2] + shape[k + 1:]
         elif kind == 'arg':
             m = self.length()
             if m == 0: m = 1
@@ -880,12 +886,11 @@ class Ref:
                 return out
             if p['kind'] == 'block':
                 dm = numpy.array(p['dofmap'], dtype=int)
-                am = numpy.moveaxis(a, [k, k + 1], [-2, -1])
+                am = numpy.moveaxis(a, list(range(k, k + dm.ndim)), list(range(-dm.ndim, 0)))
                 om = numpy.moveaxis(out, k, -1)
-                for i1 in range(dm.shape[0]):
-                    for i2 in range(dm.shape[1]):
-                        if a.dtype == bool: om[..., dm[i1, i2]] |= am[..., i1, i2]
-                        else: om[..., dm[i1, i2]] += am[..., i1, i2]
+                for ii in numpy.ndindex(*dm.shape):
+                    if a.dtype == bool: om[..., dm[ii]] |= am[(..., *ii)]
+                    else: om[..., dm[ii]] += am[(..., *ii)]
                 return out
             dm = C(1) if p['kind'] == 'arg' else numpy.array(p['dofmap'], dtype=int)
             am = numpy.moveaxis(a, k, -1)
